@@ -44,7 +44,7 @@ PROPS = {
     "C01": dict(kind="run", proj="P_C01", mon="mon_C01",
                 profiles=["default", "imm", "sync", "loops", "parallel", "parloop", "react", "react_loops"],
                 quick=240, thorough=6000, finding_profiles=["react_all", "parloop_all"]),
-    "C02": dict(kind="run", proj="P_seq", mon="mon_true",
+    "C02": dict(kind="run", proj="P_seq", mon="mon_true", property_files=("C02net",),
                 profiles=["blocks", "default", "imm", "loops", "react_loops"], quick=240, thorough=6000,
                 finding_profiles=["parloop_all", "parloop_mix"]),
     "C03": dict(kind="run", proj="P_set", mon="mon_true",
@@ -102,7 +102,8 @@ def build_targets(pid):
     if pid not in OBLIGATIONS or cfg.get("kind") not in RUNTIME:
         return None, None
     return (RUNTIME[cfg["kind"]],
-            ["Properties/%s.vo" % pid] + ["Gen/Obligations%s.vo" % o for o in OBLIGATIONS[pid]])
+            ["Properties/%s.vo" % pid] + ["Properties/%s.vo" % f for f in cfg.get("property_files", ())]
+            + ["Gen/Obligations%s.vo" % o for o in OBLIGATIONS[pid]])
 
 
 # plug-in property tables: every harness/props_<name>.py exposes PROPS (and optionally RUN_PROFILES)
